@@ -283,3 +283,211 @@ class LocalChoice:
         local = self.supvisors.mapper.local_identifier
         ok = local in identifiers and valid(self.supvisors, local, expected_load, load_details)
         return (result == local) if ok else (result is None)
+
+
+# --------------------------------------------------------------------------------------------------------------------
+# dispatch and the module-level entry points
+def node_requests(load_request_map, m):
+    """NR(m): 'the starts already requested there' = per machine sum of the pending requests of its instances.
+    Abstract (ghost attached to the request map): the summation loop of get_node_load_request_map is not unfolded."""
+    return gmap(load_request_map, 'node_requests', m)
+
+
+def mapper_knows(supvisors, i):
+    """instance i has been identified: its machine is a key of mapper.nodes and the mapper and the context agree on it"""
+    return (identified(supvisors, i) and i in supvisors.mapper._instances
+            and supvisors.mapper._instances[i] is supvisors.context.instances[i].supvisors_id
+            and machine_of(supvisors, i) in supvisors.mapper.nodes)
+
+
+def nodes_wf(supvisors):
+    """mapper invariant needed by get_nodes_load (DESIGN C04.4): every identifier filed under a machine is known to the
+    context and nodes[m] is duplicate-free"""
+    nodes = supvisors.mapper.nodes
+    return (forall(nodes, lambda m: forall(nodes[m], lambda i: i in supvisors.context.instances))
+            and forall(nodes, lambda m: forall(int, int, lambda a, b: implies(
+                0 <= a and a < b and b < len(nodes[m]), nodes[m][a] != nodes[m][b]))))
+
+
+@contract('context:Context.get_nodes_load', props=['C14', 'C04'])
+class GetNodesLoad:
+    """ASSUMED abstraction (DESIGN C04.4): per machine, the sum over the *set* of its identifiers of get_load(); the sum is
+    not unfolded, its value is the ghost NL(m) = self.ghost_node_load[m].  The precondition is the mapper invariant under
+    which the code (which sums over the *list* nodes[m]) agrees with that definition; it is proved at every call site
+    and its preservation by SupvisorsMapper.identify is a separate obligation (contracts/c04.py)."""
+    assumed = True
+    raises = ()
+
+    def modifies(self):
+        return []
+
+    def pre_nodes_wf(self):
+        return nodes_wf(self.supvisors)
+
+    def post_domain(self, result):
+        return forall(str, lambda m: (m in result) == (m in self.supvisors.mapper.nodes))
+
+    def post_values(self, result):
+        return forall(result, lambda m: result[m] == self.ghost_node_load[m])
+
+    def post_fresh(self, result):
+        return was_fresh(result)
+
+
+@contract('strategy:get_node_load_request_map', props=['C14', 'C04'])
+class GetNodeLoadRequestMap:
+    """ASSUMED abstraction: per machine, the sum of the pending requests of its identifiers (NR(m), see node_requests);
+    the summation loop is not unfolded.  The precondition (every requested identifier is identified and its machine is a
+    key of mapper.nodes - otherwise the loop raises KeyError) is proved at every call site."""
+    assumed = True
+    raises = ()
+    returns = 'Dict[str, int]'
+
+    def modifies():
+        return []
+
+    def pre_requested_known(mapper, load_request_map):
+        return forall(load_request_map, lambda i: mapper_knows(mapper.supvisors, i))
+
+    def post_domain(mapper, result):
+        return forall(str, lambda m: (m in result) == (m in mapper.nodes))
+
+    def post_values(load_request_map, result):
+        return forall(result, lambda m: result[m] == node_requests(load_request_map, m))
+
+    def post_fresh(result):
+        return was_fresh(result)
+
+
+@contract('strategy:create_strategy', props=['C14'])
+class CreateStrategy:
+    """DESIGN C14.3: total dispatch over the six members of StartingStrategies"""
+    raises = ()
+    types = {'supvisors': 'Supvisors'}
+
+    def modifies():
+        return []
+
+    def post_total(result):
+        return result is not None
+
+    def post_class(strategy, result):
+        return (implies(strategy == StartingStrategies.CONFIG, isinstance(result, ConfigStrategy))
+                and implies(strategy == StartingStrategies.LESS_LOADED, isinstance(result, LessLoadedStrategy))
+                and implies(strategy == StartingStrategies.MOST_LOADED, isinstance(result, MostLoadedStrategy))
+                and implies(strategy == StartingStrategies.LOCAL, isinstance(result, LocalStrategy))
+                and implies(strategy == StartingStrategies.LESS_LOADED_NODE, isinstance(result, LessLoadedNodeStrategy))
+                and implies(strategy == StartingStrategies.MOST_LOADED_NODE, isinstance(result, MostLoadedNodeStrategy)))
+
+    def post_bound(supvisors, result):
+        return result.supvisors is supvisors and was_fresh(result)
+
+
+# ---- the statement's view of one placement decision, over the abstract loads L, NL, NR
+def is_running(supvisors, i):
+    """C04: 'an instance that the requester sees RUNNING'"""
+    return (i in supvisors.context.instances
+            and supvisors.context.instances[i]._state == SupvisorsInstanceStates.RUNNING)
+
+
+def node_load_abs(supvisors, lrm, i):
+    """C04: 'the expected_loading of everything running on that node plus the starts already requested there' (machines
+    unknown to mapper.nodes count for 0, as .get(machine_id, 0) does)"""
+    m = machine_of(supvisors, i)
+    return (supvisors.context.ghost_node_load[m] + node_requests(lrm, m)) if m in supvisors.mapper.nodes else 0
+
+
+def instance_load_abs(supvisors, lrm, i):
+    """C14: 'loads include starts already requested'"""
+    return supvisors.context.instances[i].ghost_load + get0(lrm, i)
+
+
+def fits(supvisors, lrm, load, i):
+    """C04: 'stays at or below 100 once the program's expected_loading is added'"""
+    return node_load_abs(supvisors, lrm, i) + load <= 100
+
+
+def qualifies(supvisors, identifiers, lrm, load, i):
+    return i in identifiers and is_running(supvisors, i) and fits(supvisors, lrm, load, i)
+
+
+def key_instance(supvisors, lrm, i):
+    return (instance_load_abs(supvisors, lrm, i), node_load_abs(supvisors, lrm, i))
+
+
+def key_node(supvisors, lrm, i):
+    return (node_load_abs(supvisors, lrm, i), instance_load_abs(supvisors, lrm, i))
+
+
+def running_are_identified(supvisors):
+    """rely: an instance is only seen RUNNING after its handshake, which identifies it (SupvisorsMapper.identify) and files
+    it under its machine in mapper.nodes"""
+    return forall(supvisors.context.instances, lambda i: implies(is_running(supvisors, i), mapper_knows(supvisors, i)))
+
+
+def graph_wf(supvisors):
+    """shape of the Supvisors object graph as built once by initializer.Supvisors.__init__: components point back to it"""
+    return supvisors.mapper.supvisors is supvisors and supvisors.context.supvisors is supvisors
+
+
+def placement_pre(supvisors, lrm):
+    return (graph_wf(supvisors) and nodes_wf(supvisors) and running_are_identified(supvisors)
+            and forall(lrm, lambda i: mapper_knows(supvisors, i))
+            and supvisors.mapper.local_identifier is not None)
+
+
+def chosen_by_strategy(supvisors, strategy, identifiers, lrm, load, result):
+    """C14, clause by clause (result is not None here)"""
+    others = lambda cmp_key: forall(identifiers, lambda j: implies(qualifies(supvisors, identifiers, lrm, load, j), cmp_key(j)))
+    return (implies(strategy == StartingStrategies.CONFIG,
+                    forall(int, lambda q: implies(
+                        0 <= q and q < len(identifiers) and qualifies(supvisors, identifiers, lrm, load, identifiers[q]),
+                        exists(int, lambda p: 0 <= p and p <= q and identifiers[p] == result))))
+            and implies(strategy == StartingStrategies.LESS_LOADED,
+                        others(lambda j: key_instance(supvisors, lrm, result) <= key_instance(supvisors, lrm, j)))
+            and implies(strategy == StartingStrategies.MOST_LOADED,
+                        others(lambda j: key_instance(supvisors, lrm, result) >= key_instance(supvisors, lrm, j)))
+            and implies(strategy == StartingStrategies.LESS_LOADED_NODE,
+                        others(lambda j: key_node(supvisors, lrm, result) <= key_node(supvisors, lrm, j)))
+            and implies(strategy == StartingStrategies.MOST_LOADED_NODE,
+                        others(lambda j: key_node(supvisors, lrm, result) >= key_node(supvisors, lrm, j)))
+            and implies(strategy == StartingStrategies.LOCAL, result == supvisors.mapper.local_identifier))
+
+
+def none_iff_nobody(supvisors, strategy, identifiers, lrm, load, result):
+    """C04: 'If no instance qualifies nothing is sent' - LOCAL only ever considers the requesting instance"""
+    local = supvisors.mapper.local_identifier
+    return (result is None) == (not qualifies(supvisors, identifiers, lrm, load, local)
+                                if strategy == StartingStrategies.LOCAL
+                                else not exists(identifiers, lambda i: qualifies(supvisors, identifiers, lrm, load, i)))
+
+
+@contract('strategy:get_supvisors_instance', props=['C14', 'C04'])
+class GetSupvisorsInstance:
+    """C04: 'goes to an instance that the requester sees RUNNING ... and whose node load ... stays at or below 100 once the
+    program's expected_loading is added. If no instance qualifies nothing is sent';  C14: 'Among the eligible instances
+    the chosen one follows the requested strategy: ...; loads include starts already requested'"""
+    raises = ()
+    types = {'supvisors': 'Supvisors'}
+    inline = ['strategy:create_strategy']
+
+    def modifies():
+        return []
+
+    def pre_placement(supvisors, load_request_map):
+        return placement_pre(supvisors, load_request_map)
+
+    def post_candidate(supvisors, identifiers, result):
+        return result is None or result in identifiers
+
+    def post_running(supvisors, identifiers, result):
+        return result is None or is_running(supvisors, result)
+
+    def post_fits(supvisors, identifiers, expected_load, load_request_map, result):
+        return result is None or fits(supvisors, load_request_map, expected_load, result)
+
+    def post_none_iff(supvisors, strategy, identifiers, expected_load, load_request_map, result):
+        return none_iff_nobody(supvisors, strategy, identifiers, load_request_map, expected_load, result)
+
+    def post_strategy(supvisors, strategy, identifiers, expected_load, load_request_map, result):
+        return result is None or chosen_by_strategy(supvisors, strategy, identifiers, load_request_map, expected_load, result)
